@@ -1027,13 +1027,33 @@ def _leading_locals(stmts):
             and ast.unparse(s.value) != 'set()']
 
 
-def _bind_positional(positional, env, locs, targets, node):
+def _free_locals(fd, node):
+    """local variables of fd (names stored anywhere in fd outside `node`) that `node` reads, in order of first occurrence"""
+    inside = set(id(n) for n in ast.walk(node))
+    stored = {n.id for n in ast.walk(fd) if isinstance(n, ast.Name) and isinstance(n.ctx, ast.Store) and id(n) not in inside}
+    own = {n.id for n in ast.walk(node) if isinstance(n, ast.Name) and isinstance(n.ctx, ast.Store)}
+    out = []
+    reads = sorted((n for n in ast.walk(node) if isinstance(n, ast.Name) and isinstance(n.ctx, ast.Load)),
+                   key=lambda n: (n.lineno, n.col_offset))
+    for n in reads:
+        if n.id in stored and n.id not in own and n.id not in out:
+            out.append(n.id)
+    return out
+
+
+def _bind_positional(positional, env, locs, targets, node, free=None):
     """names bound by position, so that renaming a local or a loop variable in the source changes nothing:
        '@localK' = the K-th plain local assigned before the statement, '@targetK' = the K-th loop / comprehension target,
-       '@free:NAME' = the local NAME wherever it is assigned"""
+       '@free:NAME' = the local NAME wherever it is assigned, '@freeK' = the K-th distinct local variable of the function (a name
+       assigned somewhere in it, not a loop target of the expression) read by the expression, in order of first occurrence"""
     for cn, r, ty in positional:
         if r.startswith('@free:'):
             env[r[len('@free:'):]] = (cn, ty)
+        elif r.startswith('@free'):
+            k = int(r[len('@free'):])
+            if free is None or k >= len(free):
+                die(node, 'free local #%d not found in the expression' % k)
+            env[free[k]] = (cn, ty)
         elif r.startswith('@local'):
             k = int(r[len('@local'):])
             if k >= len(locs):
@@ -1114,7 +1134,8 @@ def translate_typed(path, defs, module):
                     die(lc, 'one generator with one condition expected')
                 g = lc.generators[0]
                 tg = g.target.elts if isinstance(g.target, ast.Tuple) else [g.target]
-                _bind_positional(positional, env, _leading_locals(fd.body[:idx]), tg if kind == 'comp_if' else None, lc)
+                _bind_positional(positional, env, _leading_locals(fd.body[:idx]), tg if kind == 'comp_if' else None, lc,
+                                 _free_locals(fd, lc))
                 if kind == 'comp_if':
                     text, ret = tx.cond(g.ifs[0], env), T_B
                 else:
@@ -1196,9 +1217,9 @@ TYPED_JOBS = [
     ]),
     ('Openlist', 'votelib/evaluate/openlist.py', [
         dict(name='ThresholdOpenList_jump_test', cls='ThresholdOpenList', fn='evaluate', kind='comp_if', target='jumping',
-             params=[P_AE, ('threshold', '@free:threshold', T_Q), ('n_votes', '@target1', T_Q)]),
+             params=[P_AE, ('threshold', '@free0', T_Q), ('n_votes', '@target1', T_Q)]),
         dict(name='ThresholdOpenList_jumping', cls='ThresholdOpenList', fn='evaluate', kind='comp', target='jumping',
-             params=[P_AE, ('threshold', '@free:threshold', T_Q), ('votes', 'votes', VOTES)]),
+             params=[P_AE, ('threshold', '@free0', T_Q), ('votes', 'votes', VOTES)]),
     ]),
 ]
 
